@@ -373,6 +373,12 @@ const (
 		process_id = $2 AND state = 4`
 )
 
+// likePattern converts a search id, in which only "*" is a wildcard, to a LIKE
+// pattern: "%", "_" and the escape character "\" are made literal.
+func likePattern(id string) string {
+	return strings.NewReplacer(`\`, `\\`, "%", `\%`, "_", `\_`, "*", "%").Replace(id)
+}
+
 // Config
 
 type Config struct {
@@ -952,7 +958,7 @@ func (w *PostgresStoreWorker) searchPromises(tx *sql.Tx, cmd *t_aio.SearchPromis
 	util.Assert(cmd.Tags != nil, "tags cannot be empty")
 
 	// convert query
-	id := strings.ReplaceAll(cmd.Id, "*", "%")
+	id := likePattern(cmd.Id)
 
 	// convert list of state to bit mask
 	mask := 0
@@ -1252,7 +1258,7 @@ func (w *PostgresStoreWorker) searchSchedules(tx *sql.Tx, cmd *t_aio.SearchSched
 	util.Assert(cmd.Tags != nil, "tags cannot be empty")
 
 	// convert query
-	id := strings.ReplaceAll(cmd.Id, "*", "%")
+	id := likePattern(cmd.Id)
 
 	// tags
 	var tags *string
